@@ -262,6 +262,19 @@ def check_values(obs, model, out, selection, source, src_ds=None):
                                  'got': gv.astype(float), 'want': want}, mech='values-wrong')
         if ok and not maskable:
             obs.cls('unmaskable-cropped-unaltered')
+        if var.fill is not None:
+            # the result must still SAY which number stands for "missing" (as an attribute, or in the encoding once xarray
+            # has decoded it): without the declaration the blanked cells read as real data
+            key = var.fill[0]
+            declared = out[name].attrs.get(key, out[name].encoding.get(key))
+            try:
+                good = declared is not None and float(numpy.asarray(declared).ravel()[0]) == float(var.fill[1])
+            except (TypeError, ValueError):
+                good = False
+            obs.expect(good, 'the declaration of the fill value of a variable survives clipping',
+                       lambda: {'var': name, 'key': key, 'want': var.fill[1], 'attrs': dict(out[name].attrs),
+                                'encoding': {k: v for k, v in out[name].encoding.items() if k in ('_FillValue', 'missing_value', 'dtype')}},
+                       mech='fill-declaration-lost')
         # attributes of the variable pass through
         for k, v in var.attrs.items():
             obs.expect(out[name].attrs.get(k) == v, 'variable attributes pass through unchanged', lambda: {'var': name, 'attr': k}, mech='attrs-changed')
